@@ -15,6 +15,7 @@ import (
 	"fmt"
 	"math/rand"
 	"os"
+	"os/exec"
 	"path/filepath"
 	"sort"
 	"strings"
@@ -83,6 +84,8 @@ type Ctx struct {
 	DriftN   int
 	Assume   []string
 	ReplayIn map[string]any
+	Cross    [][2]string // (case line, model output) pairs re-evaluated inside Coq by vm_compute
+	CrossN   int
 }
 
 func (c *Ctx) Thorough() bool { return c.Tier == "thorough" }
@@ -112,6 +115,63 @@ func (c *Ctx) Sample(s any) {
 }
 
 func (c *Ctx) Count(tag string) { c.Dist[tag]++ }
+
+// AddCross keeps a reservoir sample of (case line, extracted model's answer) pairs.
+func (c *Ctx) AddCross(line, out string) {
+	limit := c.N(150, 1500)
+	c.CrossN++
+	if len(line) > 4000 || strings.ContainsAny(line, "\"\n\r") || strings.ContainsAny(out, "\"\n\r") {
+		return
+	}
+	if len(c.Cross) < limit {
+		c.Cross = append(c.Cross, [2]string{line, out})
+	} else if j := c.Rng.Intn(c.CrossN); j < limit {
+		c.Cross[j] = [2]string{line, out}
+	}
+}
+
+// CrossAll offers every (line, answer) pair of a model run to the cross-check sample.
+func (c *Ctx) CrossAll(lines, outs []string) {
+	for i := range outs {
+		if i < len(lines) && outs[i] != "driver-stack-overflow" {
+			c.AddCross(lines[i], outs[i])
+		}
+	}
+}
+
+// CrossCheck re-evaluates the sampled cases inside Coq (vm_compute on Model/WireAll.v run_case_all) and
+// compares with what the extracted OCaml driver answered: extraction and the driver are checked by the
+// kernel's own evaluator.  Returns the number of cases checked and an error text.
+func (c *Ctx) CrossCheck() (int, string) {
+	if len(c.Cross) == 0 {
+		return 0, ""
+	}
+	var sb strings.Builder
+	sb.WriteString("From Mpath.Model Require Import Base WireAll.\nOpen Scope string_scope.\n")
+	sb.WriteString("Definition cases : list (string * string) := [\n")
+	for i, p := range c.Cross {
+		sep := ";"
+		if i == len(c.Cross)-1 {
+			sep = ""
+		}
+		fmt.Fprintf(&sb, " (\"%s\", \"%s\")%s\n", p[0], p[1], sep)
+	}
+	sb.WriteString("].\n")
+	sb.WriteString("Definition mismatches := filter (fun p => negb (str_eqb (run_case_all (bs (fst p))) (bs (snd p)))) cases.\n")
+	sb.WriteString("Lemma cross_check : mismatches = [].\nProof. vm_compute. reflexivity. Qed.\n")
+	dir := filepath.Join(c.Root, "build", "cross")
+	os.MkdirAll(dir, 0o755)
+	file := filepath.Join(dir, "Cross"+c.Prop+".v")
+	os.WriteFile(file, []byte(sb.String()), 0o644)
+	coq := filepath.Join(c.Root, "coq")
+	cmd := exec.Command("timeout", "600", "coqc", "-Q", filepath.Join(coq, "Model"), "Mpath.Model", "-Q", filepath.Join(coq, "Generated"), "Mpath.Generated", file)
+	cmd.Dir = dir
+	out, err := cmd.CombinedOutput()
+	if err != nil {
+		return len(c.Cross), "the extracted model and Coq's vm_compute disagree on the sampled cases (" + file + "): " + short(string(out))
+	}
+	return len(c.Cross), ""
+}
 
 func (c *Ctx) Note(k string, v any) { c.Extra[k] = v }
 
@@ -174,6 +234,7 @@ func (c *Ctx) RunEvalCases() {
 			continue
 		}
 		ec.ModelLine = outs[i]
+		c.AddCross(lines[i], outs[i])
 		ec.Model = h.ParseModelOutcome(outs[i])
 		c.Count("model:" + ec.Model.Class)
 		switch ec.Model.Class {
@@ -345,6 +406,13 @@ func main() {
 		c.RunEvalCases()
 	}
 
+	if c.ReplayIn == nil && c.Proofs.ModelBuilt {
+		n, msg := c.CrossCheck()
+		c.Extra["vm_compute_cross_checked"] = n
+		if msg != "" {
+			c.Violation("proof", msg, map[string]any{"kind": "proof", "theorem": "<extraction cross-check>"})
+		}
+	}
 	// proof obligations that no longer check are violations too
 	for _, b := range c.Proofs.Broken {
 		c.Violation("proof", "theorem or build step no longer checks: "+b, map[string]any{"kind": "proof", "theorem": b, "build_log": c.Proofs.BuildLog})
